@@ -128,10 +128,11 @@ pure pkey(e Int) Bytes = "p" ++ fbe(e)
 // ring position d ticks back from position i in a ring of n slots (= (i - d + n) % n for 0 <= d < n, 0 <= i < n)
 pure rpos(i Int, d Int, n Int) Int = i >= d ? i - d : i - d + n
 pure slot(s Store, d Int) Bytes = slotkey(rpos(id(s), d, N(s)))
-// the counters are initialised by deployment and stay well-formed (every history): at least one slot, the ring position inside
-// the ring, a non-negative epoch. The documented bounds (count <= 255, epochs below 2^32) remain input assumptions.
+// the counters are initialised by deployment and stay well-formed (every history): at least one slot and at most as many as
+// the contract accepts (255: a one-byte ring position; a larger accepted count wedged the tick for good at position 256 - fixed),
+// the ring position inside the ring, a non-negative epoch. Epochs below 2^32 remain an input assumption.
 invariant InvCounters [C08] = store.has("snapshotCount") && store.has("snapshotCurrent") && store.has("snapshotEpoch")
-        && 1 <= N(store) && 0 <= id(store) && id(store) < N(store) && 0 <= C(store)
+        && 1 <= N(store) && N(store) <= 255 && 0 <= id(store) && id(store) < N(store) && 0 <= C(store)
 // no per-epoch node list outside the window of the last N epochs
 pred NoStale(s Store) = forall e Int, x Bytes {s.opt(pkey(e) ++ x)} :: 1 <= e && e < 4294967296 && (e <= C(s) - N(s) || e > C(s)) ==> !s.has(pkey(e) ++ x)
 
@@ -169,7 +170,6 @@ func getSnapshot(ctx, key) (r)
 
 func Snapshot(diff) (r)
   pure
-  requires N(store) <= 255
   cover [C08] diff == N(store) - 1
   cover [C08] diff == 0
   ensures [C08] 0 <= diff && diff < N(store)
@@ -178,7 +178,6 @@ func Snapshot(diff) (r)
 
 func SnapshotByEpoch(epoch) (r)
   pure
-  requires N(store) <= 255
   cover [C08] epoch == C(store)
   cover [C08] epoch == C(store) - N(store) + 1
   ensures [C08] C(store) - N(store) < epoch && epoch <= C(store)
@@ -187,7 +186,6 @@ func SnapshotByEpoch(epoch) (r)
 
 func Netmap() (r)
   pure
-  requires N(store) <= 255
   ensures [C08] store.has(slot(store, 0)) ==> r == deser_L_Node(store.get(slot(store, 0)))
   ensures [C08] !store.has(slot(store, 0)) ==> len(r) == 0
 
@@ -208,7 +206,7 @@ func NewEpoch(epochNum)
   requires epochNum < 4294967296
 
 func UpdateSnapshotCount(count)
-  requires N(store) <= 255 && count <= 255 && C(store) < 4294967296
+  requires C(store) < 4294967296
   requires NoStale(store)
   cover [C08] W(alphabet()) && count > N(store) && count == 255
   cover [C08] W(alphabet()) && count == 1 && N(store) == 10 && id(store) == 5
@@ -249,6 +247,7 @@ module tick
 props C06 C08 C09
 use common core
 use netmap be4
+relies netmap ring InvCounters
 dialect neovm
 
 // C06: the epoch tick (C09: it delivers the new epoch number to every subscriber, Balance among them).
@@ -340,7 +339,7 @@ func cleanup(ctx, epoch)
          xcalls("newEpoch")[old(xcalls("newEpoch")).len + j] == ev_call_newEpoch($it.key(j)[2:], "newEpoch", epoch)
 
 func NewEpoch(epochNum)
-  requires WF(store) && epochNum < 4294967296
+  requires epochNum < 4294967296
   // the "if" direction, as reachability: an Alphabet-witnessed tick to a larger epoch can succeed, with and without an old list to drop
   cover [C06] W(alphabet()) && epochNum > C(store) && epochNum > N(store) && cnt(store, "e") > 0
   cover [C06] W(alphabet()) && epochNum == C(store) + 1 && epochNum <= N(store)
@@ -404,10 +403,11 @@ func SubscribeForNewEpoch(contract)
 module tickok
 props C06
 use common core
+relies netmap ring InvCounters
 dialect neovm
 
-// C06, the "if" direction of "newEpoch(e) succeeds iff ...": with well-formed counters (deployment; see module ring), the
-// Alphabet's witness, a larger epoch below 2^32 and well-formed stored candidates no fault site of this contract is reachable
+// C06, the "if" direction of "newEpoch(e) succeeds iff ...": in every reachable state (the counters are well formed: package
+// invariant InvCounters of module ring, relied on here), with the Alphabet's witness, a larger epoch below 2^32 and well-formed stored candidates no fault site of this contract is reachable
 // during the tick - what is left are faults inside the subscribers' newEpoch (A1: the whole tick is then reverted).
 // Every callee is inlined (its fault sites must be seen); the loops only have to keep the counters and the subscriber keys.
 // Stored values are assumed to deserialise (A4): a malformed stored candidate is not a modelled fault site.
@@ -440,7 +440,7 @@ func cleanup(ctx, epoch)
     invariant true
 
 func NewEpoch(epochNum)
-  nofault given WF(store) && W(alphabet()) && epochNum > C(store) && epochNum < 4294967296
+  nofault given W(alphabet()) && epochNum > C(store) && epochNum < 4294967296
         && (forall j Int {skey(store, "e", j)} :: 0 <= j && j < cnt(store, "e") ==> len(skey(store, "e", j)) == 22)
 @*/
 
@@ -560,9 +560,10 @@ func ListConfig() (r)
 
 /*@
 module upgrade
-props C16
+props C08 C16
 use common core
 use common vote
+relies netmap ring InvCounters
 dialect neovm
 
 // C16: the upgrade from versions before 0.16 re-serialises every legacy snapshot and candidate in the new Node layout
@@ -586,8 +587,8 @@ func setConfig(ctx, key, val)
   ensures notifs == old(notifs)
   ensures forall k Bytes {store.opt(k)} :: !prefix("config", k) ==> store.opt(k) == old(store).opt(k)
 
+// (an update finds the counters well formed, 1 <= N <= 255: package invariant InvCounters of module ring, relied on)
 func _deploy(data, isUpdate)
-  requires 0 <= N(store) && N(store) <= 255
   // version window
   ensures [C16] isUpdate ==> PrevVersion <= lastarg(data) && lastarg(data) < Version
   // every stored legacy snapshot is converted, none is lost
@@ -598,6 +599,11 @@ func _deploy(data, isUpdate)
   // the counters survive every upgrade path
   ensures [C16] isUpdate ==> store.opt("snapshotCount") == old(store).opt("snapshotCount") && store.opt("snapshotEpoch") == old(store).opt("snapshotEpoch")
         && store.opt("snapshotCurrent") == old(store).opt("snapshotCurrent")
+  // the first deployment establishes the counters (base of the induction behind InvCounters of module ring): ten slots, position 0, epoch 0
+  ensures [C08,C16] !isUpdate ==> store.has("snapshotCount") && store.has("snapshotCurrent") && store.has("snapshotEpoch")
+        && N(store) == 10 && b2i(store.get("snapshotCurrent")) == 0 && b2i(store.get("snapshotEpoch")) == 0
+  // ... and ten empty snapshots
+  ensures [C08,C16] !isUpdate ==> forall t Int {store.opt(slotkey(t))} :: 0 <= t && t < 10 ==> store.has(slotkey(t)) && len(deser_L_Node(store.get(slotkey(t)))) == 0
   loop 0
     invariant 0 <= i && i <= N(old(store))
     invariant forall t Int {store.opt(slotkey(t))} :: 0 <= t && t < i && old(store).has(slotkey(t)) && len(old(store).get(slotkey(t))) > 0
@@ -609,7 +615,9 @@ func _deploy(data, isUpdate)
   loop 2
     invariant forall x Bytes {store.opt(x)} :: !prefix("candidate", x) ==> store.opt(x) == entry(store).opt(x)
   loop 3
-    invariant true
+    invariant forall x Bytes {store.opt(x)} :: !prefix("config", x) ==> store.opt(x) == entry(store).opt(x)
   loop 4
-    invariant true
+    invariant 0 <= i && i <= 10
+    invariant forall x Bytes {store.opt(x)} :: !isslot(x) ==> store.opt(x) == entry(store).opt(x)
+    invariant forall t Int {store.opt(slotkey(t))} :: 0 <= t && t < i ==> store.has(slotkey(t)) && len(deser_L_Node(store.get(slotkey(t)))) == 0
 @*/
